@@ -454,8 +454,9 @@ def maps(ctx, lines, expect):
         grp = group.IndentationGroup()
         curves = []
         # (every second map has curves long enough for the rater's size criterion: non-trivial ratings)
-        npts = 650 if i % 2 == 1 else 90
+        # (... and every third of them is short: the rater's size criterion fails, its rating is exactly 0)
         for j, (xi, yi) in enumerate(pix):
+            npts = 650 if (i % 2 == 1 and j % 3 != 2) else 90
             idnt = synth_curve(rng.randrange(1 << 20), n=npts, extra_meta=grid_meta(xn, yn, xi, yi), enum=j,
                                E=rng.choice([300.0, 800.0, 2500.0]), cp=rng.choice([0.0, 1e-7, -2e-7]))
             grp.append(idnt)
@@ -475,7 +476,8 @@ def maps(ctx, lines, expect):
             # the first round fits; afterwards every kind of action comes up in turn (shuffled per run)
             act = "fit" if rnd == 0 else acts[next_act[0] % len(acts)]
             next_act[0] += rnd > 0
-            for c in sub:
+            # (a rating round rates every fitted curve of the map: short ones get exactly 0, long ones a value)
+            for c in (curves if act == "rate" else sub):
                 idnt = c["idnt"]
                 with warnings.catch_warnings():
                     warnings.simplefilter("ignore")
@@ -508,7 +510,7 @@ def maps(ctx, lines, expect):
                                 # (non-default rating settings: the map shows THIS rating)
                                 rv = idnt.rate_quality(regressor=rng.choice(["Extra Trees", "Decision Tree"]),
                                                        training_set=ts, names=names)
-                                kk = "rating=" + ("trivial (0 / -1)" if rv in (0, -1) else "non-trivial")
+                                kk = "rating=" + ("exactly 0" if rv == 0 else ("-1" if rv == -1 else "non-trivial"))
                                 ctx.dist[kk] = ctx.dist.get(kk, 0) + 1
                     except BaseException as e:  # noqa
                         ctx.notes.append(f"map action {act} raised {e!r}")
